@@ -64,13 +64,19 @@ CP_CONFIGS = {
     'cp_quick': (3, 2, 2, [97], [3, 4], 4),          # 26 k transitions, ~8 s
     'cp_deep': (3, 2, 3, [97], [3, 4], 4),           # 4.8 M transitions, ~3 min on 16 workers
     'cp_wide': (2, 2, 2, [97, 98], [1, 3, 4], 4),    # two letters, three settings; with the parse actions 2.1 M transitions, ~2 min
+    # seeded: register 1 starts as the result of two range applications (every pair of ranges, on top / underneath);
+    # the first step makes a second value, the second step is any operation: histories of length 4 of the shape
+    # new; apply; apply; (new|slice|copy); op
+    'cp_seeded': (2, 2, 2, [97], [3, 4], 4, True, True),
+    'cp_seeded3': (3, 2, 2, [97], [3, 4], 5, True, True),
 }
 
 
 def run_cp(name, timeout=3000, sabotage=None, with_parse=False):
     """TLC on spec/CPSystem.tla: the transcribed change-point algorithms; WF, NoDup, refinement of every contract clause,
     tables of other registers untouched."""
-    ml, mr, md, alpha, pal, mt = CP_CONFIGS[name]
+    ml, mr, md, alpha, pal, mt = CP_CONFIGS[name][:6]
+    seeded, narrow = (CP_CONFIGS[name] + (False, False))[6:8]
     d = tlcrun.scratch('verif-cp-')
     try:
         snap = os.path.join(d, 'spec')
@@ -85,9 +91,9 @@ def run_cp(name, timeout=3000, sabotage=None, with_parse=False):
             open(p, 'w').write(src.replace(sabotage[0], sabotage[1]))
         with open(os.path.join(snap, 'MC.cfg'), 'w') as f:
             f.write('SPECIFICATION Spec\nCONSTANTS\n  MaxLen = %d\n  MaxRegs = %d\n  MaxDepth = %d\n  Alphabet = {%s}\n'
-                    '  Palette = {%s}\n  MaxTotalLen = %d\n  WithParse = %s\nINVARIANT WF\nINVARIANT NoDup\nPROPERTY Refines\nPROPERTY TablesFramed\n'
+                    '  Palette = {%s}\n  MaxTotalLen = %d\n  WithParse = %s\n  Seeded = %s\n  Narrow = %s\nINVARIANT WF\nINVARIANT NoDup\nPROPERTY Refines\nPROPERTY TablesFramed\n'
                     'VIEW View\nCHECK_DEADLOCK FALSE\n' % (ml, mr, md, ', '.join(map(str, alpha)), ', '.join(map(str, pal)), mt,
-                                                          'TRUE' if with_parse else 'FALSE'))
+                                                          'TRUE' if with_parse else 'FALSE', 'TRUE' if seeded else 'FALSE', 'TRUE' if narrow else 'FALSE'))
         tf = os.path.join(d, 'texts.json')
         with open(tf, 'w') as f:
             json.dump([[ord(c) for c in t] for t in PALETTE], f)
@@ -98,12 +104,12 @@ def run_cp(name, timeout=3000, sabotage=None, with_parse=False):
                 'what': 'transcribed algorithms (apply, remove, __getitem__, __iadd__, ljust/rjust/center, copy, replace, to_str with the optimiser' + (', set_ansi_str/parse_graphic_sequence/simplify' if with_parse else '') + '), texts <= %d, '
                         '%d registers, depth %d, palette %s: WF (the library self-check), NoDup, refinement of every contract clause, '
                         'TablesFramed on every transition' % (ml, mr, md, [PALETTE[i - 1] for i in pal]),
-                'detail': '' if ok else '\n'.join(l for l in out.splitlines() if l.startswith('Error') or 'violated' in l)[:1500]}
+                'detail': '' if ok else ('\n'.join(l for l in out.splitlines() if l.startswith('Error') or 'violated' in l)[:1500] or out[-1500:])}
     finally:
         shutil.rmtree(d, ignore_errors=True)
 
 
-def run_cp_sim(seconds=240, seed=1, with_parse=False):
+def run_cp_sim(seconds=240, seed=1, with_parse=False, seeded=False):
     """tlc -simulate on CPSystem with larger constants (texts <= 4 over {a,b}, 3 registers, 6 operations, palette
     {1,31,34}): random walks, every invariant and action property checked on every step; runs until the time limit."""
     import subprocess
@@ -116,7 +122,7 @@ def run_cp_sim(seconds=240, seed=1, with_parse=False):
                 shutil.copy(os.path.join(tlcrun.SPEC, fn), os.path.join(snap, fn))
         with open(os.path.join(snap, 'MC.cfg'), 'w') as f:
             f.write('SPECIFICATION Spec\nCONSTANTS\n  MaxLen = 4\n  MaxRegs = 3\n  MaxDepth = 6\n  Alphabet = {97, 98}\n'
-                    '  Palette = {1, 3, 4}\n  MaxTotalLen = 8\n  WithParse = ' + ('TRUE' if with_parse else 'FALSE') + '\nINVARIANT WF\nINVARIANT NoDup\nPROPERTY Refines\nPROPERTY TablesFramed\n'
+                    '  Palette = {1, 3, 4}\n  MaxTotalLen = 8\n  WithParse = ' + ('TRUE' if with_parse else 'FALSE') + '\n  Seeded = ' + ('TRUE' if seeded else 'FALSE') + '\n  Narrow = FALSE\nINVARIANT WF\nINVARIANT NoDup\nPROPERTY Refines\nPROPERTY TablesFramed\n'
                     'CHECK_DEADLOCK FALSE\n')
         tf = os.path.join(d, 'texts.json')
         with open(tf, 'w') as f:
@@ -196,8 +202,9 @@ def run_for(prop, tier, seed=1):
     if prop in ('C04', 'C05', 'C06', 'C07', 'C08', 'C09'):
         # these checks also export + replay the reference model (checks.model_replay)
         cp = run_cp('cp_deep' if tier == 'thorough' else 'cp_quick')
-        sim = [run_cp_sim(240, seed)] if (tier == 'thorough' and prop in ('C04', 'C05', 'C06', 'C07')) else []
-        return ([run_model('deep')] if tier == 'thorough' else []) + [cp] + sim
+        sim = [run_cp_sim(240, seed), run_cp_sim(120, seed + 1, seeded=True)] if (tier == 'thorough' and prop in ('C04', 'C05', 'C06', 'C07')) else []
+        seeded = [run_cp('cp_seeded')] if (tier == 'thorough' and prop in ('C05', 'C07', 'C09')) else []
+        return ([run_model('deep')] if tier == 'thorough' else []) + [cp] + seeded + sim
     if prop == 'C12':
         return [run_model('small' if tier == 'thorough' else 'quick'), run_cp('cp_deep' if tier == 'thorough' else 'cp_quick')]
     if prop in ('C11', 'C17'):
